@@ -73,6 +73,19 @@ def pure_python_variant(modname, funcname):
     return oracle
 
 
+PYTHON_O = {"PYTHONOPTIMIZE": "1", "VERIF_ASSERT_OPTIMIZED": "1"}
+
+
+def optimized_variant(modname, funcname):
+    """an oracle that evaluates <modname>.<funcname> in a child interpreter started with PYTHONOPTIMIZE=1 (python -O:
+    assert statements are compiled away, __debug__ is False), the mode in which validation written as an assert vanishes;
+    the child refuses to start unless asserts really are disabled"""
+    def oracle(case):
+        return list(call(modname, funcname, case, PYTHON_O)) + ["child=python -O"]
+    oracle.__name__ = funcname + "_python_O"
+    return oracle
+
+
 def _child_main(modname):
     out = os.fdopen(os.dup(1), "w", buffering=1)
     os.dup2(2, 1)                      # anything the code under test prints goes to stderr, not into the protocol
@@ -90,6 +103,8 @@ def _child_main(modname):
             raise RuntimeError("pycoin imported from %s, not %s" % (pycoin.__file__, repo))
         from vlib import core
         mod = __import__(modname, fromlist=["x"])
+        if os.environ.get("VERIF_ASSERT_OPTIMIZED") and __debug__:
+            raise RuntimeError("child was to run with asserts disabled (PYTHONOPTIMIZE=1) but __debug__ is True")
         want = os.environ.get("VERIF_ASSERT_BACKEND")
         if want:
             from gen import ecgen
